@@ -582,6 +582,7 @@ def oracle_c12(world, result):
         moved_trainable = any(not _leaf_equal(ini[k], ret[k]) for k in trainable)
     P["trainable_moved"] = int(moved_trainable)
     P["teleport_fired"] = int(any(s["fault"] == E.F_TELEPORT for s in result["steps"]))
+    P["default_loss_and_optimizer"] = int(bool(world.get("use_defaults")))
     # 2./3. state invariants --------------------------------------------------------------
     xs, cs = _probe_points(world, result)
     n_checked = n_vac = 0
